@@ -175,6 +175,10 @@ func TestReplay(t *testing.T) {
 	switch vrep.ReplayCheckName() {
 	case "Tree", "TreeEnum":
 		vrep.Replay(t, vrep.ReplayCheckName(), checkTree)
+	case "Concurrent":
+		for i := 0; i < 20; i++ {
+			vrep.Replay(t, "Concurrent", checkConcurrent)
+		}
 	default:
 		replayOther(t)
 	}
@@ -225,3 +229,46 @@ func TestTreeEnum(t *testing.T) {
 		}
 	}, checkTree)
 }
+
+// ConcCase: several style expressions evaluated at the same time (items are built and rendered by
+// parallel goroutines in servitor): each must come out exactly as when evaluated alone.
+type ConcCase struct {
+	Trees []*vgen.SNode `json:"trees"`
+}
+
+func checkConcurrent(c ConcCase) vrep.Result {
+	want := make([]string, len(c.Trees))
+	for i, tr := range c.Trees {
+		want[i] = tr.Eval()
+	}
+	const rounds = 40
+	errs := make(chan error, len(c.Trees))
+	for i, tr := range c.Trees {
+		go func(i int, tr *vgen.SNode) {
+			for r := 0; r < rounds; r++ {
+				if got := tr.Eval(); got != want[i] {
+					errs <- fmt.Errorf("expression %d evaluated while others were being evaluated gives %q, alone %q", i, clip(got), clip(want[i]))
+					return
+				}
+			}
+			errs <- nil
+		}(i, tr)
+	}
+	var first error
+	for range c.Trees {
+		if err := <-errs; err != nil && first == nil {
+			first = err
+		}
+	}
+	return vrep.Result{Classes: []string{fmt.Sprintf("parallel:%d", len(c.Trees))}, Nontrivial: len(c.Trees) >= 2, Err: first}
+}
+
+func genConcurrent(t *rapid.T) ConcCase {
+	c := ConcCase{}
+	for n := rapid.IntRange(2, 4).Draw(t, "ntrees"); n > 0; n-- {
+		c.Trees = append(c.Trees, vgen.GenTree(t, rapid.IntRange(2, 4).Draw(t, "maxdepth")))
+	}
+	return c
+}
+
+func TestConcurrent(t *testing.T) { vrep.Run(t, "Concurrent", false, genConcurrent, checkConcurrent) }
